@@ -175,7 +175,7 @@ class VEPRecord():
                     # way (e.g., C -> TACC), which needs to be converted into
                     # start-inclusion (A -> ATAC) for variants on + strand genes.
                     ref = str(seq.seq[alt_start])
-                    if ref == allele[-1]:
+                    if ref == allele[-1] and alt_start > tx_start_genetic:
                         alt_start -= 1
                         alt_end = alt_start + 1
                         ref = str(seq.seq[alt_start])
@@ -183,6 +183,10 @@ class VEPRecord():
                     elif ref == allele[0]:
                         ref = str(ref)
                         alt = allele
+                    elif ref == allele[-1]:
+                        # end-inclusion insertion before the first base of the
+                        # transcript: there is no base to anchor it on.
+                        raise TranscriptionStartSiteMutationError(tx_id)
                     else:
                         raise ValueError(f"Don't know how to process this variant: {self}")
                 else: # SNV
